@@ -3,6 +3,8 @@ import Mathlib.Data.Rat.Floor
 import Mathlib.Tactic.Linarith
 import Mathlib.Tactic.Ring
 import Mathlib.Tactic.Positivity
+import Mathlib.Tactic.NormNum
+import Mathlib.Tactic.Push
 /-!
 # C08 — density volumes conserve every sample and use a consistent voxel mapping
 
@@ -20,52 +22,326 @@ open G G.Volume
 
 theorem filter_lt_range (n m : Nat) (h : m ≤ n) :
     ((List.range n).filter (fun k => decide (k < m))).length = m := by
-  sorry
+  induction n with
+  | zero =>
+    have hm : m = 0 := by omega
+    subst hm; simp
+  | succ n ih =>
+    rw [List.range_succ, List.filter_append, List.length_append]
+    by_cases hm : m ≤ n
+    · rw [ih hm]
+      have : ¬ n < m := by omega
+      simp [this]
+    · have hmn : m = n + 1 := by omega
+      subst hmn
+      have h1 : ((List.range n).filter (fun k => decide (k < n + 1))).length = n := by
+        have : (List.range n).filter (fun k => decide (k < n + 1)) = List.range n := by
+          apply List.filter_eq_self.mpr
+          intro a ha
+          have := List.mem_range.mp ha
+          exact decide_eq_true (by omega)
+        rw [this, List.length_range]
+      rw [h1]; simp
+
+theorem len_filter_map {α β : Type} (f : α → β) (p : β → Bool) (l : List α) :
+    ((l.map f).filter p).length = (l.filter (fun a => p (f a))).length := by
+  induction l with
+  | nil => rfl
+  | cons a l ih =>
+    simp only [List.map_cons, List.filter_cons]
+    split <;> simp [ih]
 
 /-- **C08 (voxel index)**: digitizing against the `linspace` edges is floor(x·n) on [0, 1). -/
 theorem digitize_eq_floor (n : Nat) (hn : 0 < n) (x : ℚ) (h0 : 0 ≤ x) (h1 : x < 1) :
     (voxOf n x : Int) = ⌊x * n⌋ := by
-  sorry
+  have hnq : (0 : ℚ) < n := by exact_mod_cast hn
+  have hfl0 : 0 ≤ ⌊x * n⌋ := Int.floor_nonneg.mpr (mul_nonneg h0 hnq.le)
+  obtain ⟨m, hm⟩ := Int.eq_ofNat_of_zero_le hfl0
+  have hmle : m ≤ n := by
+    have : ⌊x * n⌋ < n := by
+      rw [Int.floor_lt]; push_cast; nlinarith
+    omega
+  unfold voxOf digitize edges
+  rw [len_filter_map]
+  have key : ∀ k : Nat, (decide (((k : ℚ) + 1) / (n : ℚ) ≤ x)) = decide (k < m) := by
+    intro k
+    congr 1
+    rw [div_le_iff₀ hnq]
+    apply propext
+    constructor
+    · intro hk
+      have : ((k + 1 : Nat) : Int) ≤ ⌊x * n⌋ := by
+        rw [Int.le_floor]; push_cast; linarith
+      omega
+    · intro hk
+      have : ((k + 1 : Nat) : Int) ≤ ⌊x * n⌋ := by omega
+      have := Int.le_floor.mp this
+      push_cast at this; linarith
+  have hfun : (fun a : Nat => decide (((a : ℚ) + 1) / (n : ℚ) ≤ x)) = fun k => decide (k < m) := by
+    funext k; exact key k
+  rw [hfun, filter_lt_range n m hmle, hm]
 
 theorem voxOf_lt (n : Nat) (hn : 0 < n) (x : ℚ) (h0 : 0 ≤ x) (h1 : x < 1) : voxOf n x < n := by
-  sorry
+  have hnq : (0 : ℚ) < n := by exact_mod_cast hn
+  have h := digitize_eq_floor n hn x h0 h1
+  have : ⌊x * n⌋ < (n : Int) := by
+    rw [Int.floor_lt]; push_cast; nlinarith
+  omega
 
 /-- all three coordinates in the half-open unit cell -/
 def InCell (p : V3) : Prop := 0 ≤ p.x ∧ p.x < 1 ∧ 0 ≤ p.y ∧ p.y < 1 ∧ 0 ≤ p.z ∧ p.z < 1
 
+/-! ### list-sum helpers -/
+
+theorem sum_flatMap_nat {α : Type} (l : List α) (f : α → List Nat) :
+    (l.flatMap f).sum = (l.map (fun i => (f i).sum)).sum := by
+  induction l with
+  | nil => rfl
+  | cons a l ih =>
+    rw [List.flatMap_cons, List.sum_append_nat, ih, List.map_cons, List.sum_cons]
+
+theorem sum_map_add {α : Type} (l : List α) (f g : α → Nat) :
+    (l.map (fun i => f i + g i)).sum = (l.map f).sum + (l.map g).sum := by
+  induction l with
+  | nil => rfl
+  | cons a l ih =>
+    simp only [List.map_cons, List.sum_cons, ih]; omega
+
+theorem sum_map_zero {α : Type} (l : List α) : (l.map (fun _ => (0 : Nat))).sum = 0 := by
+  induction l with
+  | nil => rfl
+  | cons a l ih => simp only [List.map_cons, List.sum_cons, ih]
+
+theorem sum_map_indicator (n c : Nat) (hc : c < n) :
+    ((List.range n).map (fun k => if (c == k) = true then 1 else 0)).sum = 1 := by
+  induction n with
+  | zero => omega
+  | succ n ih =>
+    rw [List.range_succ, List.map_append, List.sum_append_nat]
+    by_cases h : c < n
+    · rw [ih h]
+      have hne : ¬ c = n := by omega
+      simp [hne]
+    · have hcn : c = n := by omega
+      subst hcn
+      have hz : ((List.range c).map (fun k => if (c == k) = true then 1 else 0)).sum = 0 := by
+        have : (List.range c).map (fun k => if (c == k) = true then 1 else 0)
+            = (List.range c).map (fun _ => (0 : Nat)) := by
+          apply List.map_congr_left
+          intro a ha
+          have := List.mem_range.mp ha
+          have hne : (c == a) = false := by rw [beq_eq_false_iff_ne]; omega
+          simp [hne]
+        rw [this, sum_map_zero]
+      rw [hz]; simp
+
+/-- splitting a count by the value of a bounded key -/
+theorem count_partition {α : Type} (l : List α) (g : α → Nat) (q : α → Bool) (n : Nat)
+    (h : ∀ t ∈ l, g t < n) :
+    ((List.range n).map (fun k => l.countP (fun t => q t && g t == k))).sum = l.countP q := by
+  induction l with
+  | nil => simp only [List.countP_nil]; exact sum_map_zero _
+  | cons t l ih =>
+    have ih' := ih (fun s hs => h s (List.mem_cons_of_mem _ hs))
+    have ht : g t < n := h t List.mem_cons_self
+    simp only [List.countP_cons]
+    rw [sum_map_add, ih']
+    congr 1
+    cases hq : q t with
+    | false => simp only [Bool.false_and]; exact sum_map_zero _
+    | true =>
+      simp only [Bool.true_and]
+      exact sum_map_indicator n (g t) ht
+
+theorem beq3 (t : Nat × Nat × Nat) (i j k : Nat) :
+    (t == (i, j, k)) = ((t.1 == i && t.2.1 == j) && t.2.2 == k) := by
+  obtain ⟨a, b, c⟩ := t
+  rw [Bool.eq_iff_iff]
+  simp [Prod.ext_iff, and_assoc]
+
+theorem grid_count_sum (nx ny nz : Nat) (idx : List (Nat × Nat × Nat))
+    (h : ∀ t ∈ idx, t.1 < nx ∧ t.2.1 < ny ∧ t.2.2 < nz) :
+    ((List.range nx).flatMap (fun (i : Nat) => (List.range ny).flatMap (fun (j : Nat) =>
+      (List.range nz).map (fun (k : Nat) => (idx.filter (fun t => t == (i, j, k))).length)))).sum
+      = idx.length := by
+  have h1 : ∀ i j : Nat,
+      ((List.range nz).map (fun (k : Nat) => (idx.filter (fun t => t == (i, j, k))).length)).sum
+        = idx.countP (fun t => t.1 == i && t.2.1 == j) := by
+    intro i j
+    rw [← count_partition idx (fun t => t.2.2) (fun t => t.1 == i && t.2.1 == j) nz
+      (fun t ht => (h t ht).2.2)]
+    congr 1
+    apply List.map_congr_left
+    intro k _
+    rw [← List.countP_eq_length_filter]
+    congr 1
+    funext t
+    exact beq3 t i j k
+  have h2 : ∀ i : Nat,
+      ((List.range ny).map (fun (j : Nat) => idx.countP (fun t => t.1 == i && t.2.1 == j))).sum
+        = idx.countP (fun t => t.1 == i) :=
+    fun i => count_partition idx (fun t => t.2.1) (fun t => t.1 == i) ny (fun t ht => (h t ht).2.1)
+  have h3 : ((List.range nx).map (fun (i : Nat) => idx.countP (fun t => true && t.1 == i))).sum
+        = idx.countP (fun _ => true) :=
+    count_partition idx (fun t => t.1) (fun _ => true) nx (fun t ht => (h t ht).1)
+  rw [sum_flatMap_nat]
+  simp only [sum_flatMap_nat, h1, h2]
+  simp only [Bool.true_and] at h3
+  rw [h3]
+  simp
+
 /-- **C08 (conservation)**: the voxel counts sum to the number of samples. -/
 theorem counts_sum (nx ny nz : Nat) (hx : 0 < nx) (hy : 0 < ny) (hz : 0 < nz) (pts : List V3)
     (hp : ∀ p ∈ pts, InCell p) : (counts nx ny nz pts).sum = pts.length := by
-  sorry
+  have hidx : ∀ t ∈ pts.map (voxel3 nx ny nz), t.1 < nx ∧ t.2.1 < ny ∧ t.2.2 < nz := by
+    intro t ht
+    obtain ⟨p, hpm, rfl⟩ := List.mem_map.mp ht
+    obtain ⟨a0, a1, b0, b1, c0, c1⟩ := hp p hpm
+    exact ⟨voxOf_lt nx hx p.x a0 a1, voxOf_lt ny hy p.y b0 b1, voxOf_lt nz hz p.z c0 c1⟩
+  have := grid_count_sum nx ny nz (pts.map (voxel3 nx ny nz)) hidx
+  rw [List.length_map] at this
+  exact this
+
+/-! ### indexing helpers -/
+
+theorem length_flatMap_uniform {α : Type} (f : Nat → List α) (b : Nat)
+    (hf : ∀ i, (f i).length = b) (a : Nat) : ((List.range a).flatMap f).length = a * b := by
+  induction a with
+  | zero => simp
+  | succ a ih =>
+    rw [List.range_succ, List.flatMap_append, List.length_append, ih]
+    simp only [List.flatMap_cons, List.flatMap_nil, List.append_nil, hf]
+    rw [Nat.succ_mul]
+
+theorem getD_flatMap_uniform {α : Type} (f : Nat → List α) (b : Nat)
+    (hf : ∀ i, (f i).length = b) (d : α) (a i r : Nat) (hi : i < a) (hr : r < b) :
+    ((List.range a).flatMap f).getD (i * b + r) d = (f i).getD r d := by
+  induction a with
+  | zero => omega
+  | succ a ih =>
+    rw [List.range_succ, List.flatMap_append]
+    have hlen := length_flatMap_uniform f b hf a
+    simp only [List.flatMap_cons, List.flatMap_nil, List.append_nil]
+    rw [List.getD_eq_getElem?_getD, List.getD_eq_getElem?_getD]
+    by_cases h : i < a
+    · have hlt : i * b + r < ((List.range a).flatMap f).length := by
+        rw [hlen]
+        have : (i + 1) * b ≤ a * b := Nat.mul_le_mul_right b h
+        rw [Nat.succ_mul] at this
+        omega
+      rw [List.getElem?_append_left hlt, ← List.getD_eq_getElem?_getD, ih h,
+        List.getD_eq_getElem?_getD]
+    · have hia : i = a := by omega
+      subst hia
+      have hge : ((List.range i).flatMap f).length ≤ i * b + r := by rw [hlen]; omega
+      rw [List.getElem?_append_right hge, hlen]
+      have : i * b + r - i * b = r := by omega
+      rw [this]
+
+theorem getD_map_range (g : Nat → Nat) (n k : Nat) (hk : k < n) :
+    ((List.range n).map g).getD k 0 = g k := by
+  rw [List.getD_eq_getElem?_getD, List.getElem?_map, List.getElem?_range hk]
+  rfl
 
 /-- **C08 (which voxel)**: entry (i,j,k) of the dense array (C order) is the number of samples whose
 floor indices are (i,j,k). -/
 theorem counts_get (nx ny nz : Nat) (pts : List V3) (i j k : Nat) (hi : i < nx) (hj : j < ny) (hk : k < nz) :
     (counts nx ny nz pts).getD ((i * ny + j) * nz + k) 0
       = (pts.filter (fun p => voxel3 nx ny nz p == (i, j, k))).length := by
-  sorry
+  unfold counts
+  simp only []
+  have hin : ∀ (i j : Nat), ((List.range nz).map (fun (k : Nat) =>
+      ((pts.map (voxel3 nx ny nz)).filter (fun t => t == (i, j, k))).length)).length = nz := by
+    intro i j; rw [List.length_map, List.length_range]
+  have hmid : ∀ (i : Nat), ((List.range ny).flatMap (fun (j : Nat) => (List.range nz).map (fun (k : Nat) =>
+      ((pts.map (voxel3 nx ny nz)).filter (fun t => t == (i, j, k))).length))).length = ny * nz := by
+    intro i
+    exact length_flatMap_uniform _ nz (hin i) ny
+  have hidx : (i * ny + j) * nz + k = i * (ny * nz) + (j * nz + k) := by
+    rw [Nat.add_mul, Nat.mul_assoc, Nat.add_assoc]
+  have hjk : j * nz + k < ny * nz := by
+    have : (j + 1) * nz ≤ ny * nz := Nat.mul_le_mul_right nz hj
+    rw [Nat.succ_mul] at this
+    omega
+  rw [hidx, getD_flatMap_uniform _ (ny * nz) hmid 0 nx i (j * nz + k) hi hjk,
+    getD_flatMap_uniform _ nz (hin i) 0 ny j k hj hk, getD_map_range _ nz k hk, len_filter_map]
 
 /-- `nVoxAux` finds the largest `n ≤ fuel` with `(n·res)² ≤ L²` -/
 theorem nVoxAux_spec (lsq res : ℚ) (hres : 0 < res) (fuel : Nat) :
     let n := nVoxAux lsq res fuel
     n ≤ fuel ∧ (n ≠ 0 → ((n : ℚ) * res) ^ 2 ≤ lsq) ∧ ∀ k, n < k → k ≤ fuel → lsq < ((k : ℚ) * res) ^ 2 := by
-  sorry
+  have _hpos := hres  -- positivity of `res` is not needed for this direction
+  induction fuel with
+  | zero =>
+    intro n
+    refine ⟨Nat.le_refl _, fun h => absurd rfl h, ?_⟩
+    intro k h1 h2
+    have : nVoxAux lsq res 0 = 0 := rfl
+    omega
+  | succ f ih =>
+    intro n
+    obtain ⟨ih1, ih2, ih3⟩ := ih
+    by_cases hc : (((f + 1 : Nat) : ℚ) * res) ^ 2 ≤ lsq
+    · have hn : n = f + 1 := by
+        show nVoxAux lsq res (f + 1) = f + 1
+        unfold nVoxAux
+        rw [if_pos hc]
+      rw [hn]
+      refine ⟨Nat.le_refl _, fun _ => hc, ?_⟩
+      intro k h1 h2; omega
+    · have hn : n = nVoxAux lsq res f := by
+        show nVoxAux lsq res (f + 1) = nVoxAux lsq res f
+        conv => lhs; unfold nVoxAux
+        rw [if_neg hc]
+      rw [hn]
+      refine ⟨Nat.le_succ_of_le ih1, ih2, ?_⟩
+      intro k h1 h2
+      by_cases hk : k = f + 1
+      · subst hk; exact not_le.mp hc
+      · exact ih3 k h1 (by omega)
 
 /-- **C08 (voxel edge)**: with `n = ⌊L/res⌋ ≥ 1` voxels the edge `L/n` satisfies `res ≤ L/n < 2·res`
 (stated without square roots: `L` is any non-negative number with `n·res ≤ L < (n+1)·res`). -/
 theorem voxel_size_bounds (L res : ℚ) (n : Nat) (hn : 0 < n) (hres : 0 < res)
     (hlo : (n : ℚ) * res ≤ L) (hhi : L < ((n : ℚ) + 1) * res) :
     res ≤ L / n ∧ L / n < 2 * res := by
-  sorry
+  have hnq : (0 : ℚ) < n := by exact_mod_cast hn
+  have hn1 : (1 : ℚ) ≤ n := by exact_mod_cast hn
+  have hmul : res ≤ (n : ℚ) * res := le_mul_of_one_le_left hres.le hn1
+  constructor
+  · rw [le_div_iff₀ hnq]; linarith
+  · rw [div_lt_iff₀ hnq]; linarith
 
 /-- **C08 (round trip)**: converting a voxel index to the fractional coordinate of its centre and
 back returns the same index, for every grid size. -/
 theorem roundtrip (n : Nat) (hn : 0 < n) (v : Nat) : fracToVoxel n (voxelToFrac n v) = v := by
-  sorry
+  have hnq : (0 : ℚ) < n := by exact_mod_cast hn
+  have hy : voxelToFrac n (v : Int) * (n : ℚ) = (v : ℚ) + 1/2 := by
+    unfold voxelToFrac
+    rw [div_mul_cancel₀ _ hnq.ne']
+    push_cast; rfl
+  have hv : (0 : ℚ) ≤ (v : ℚ) := Nat.cast_nonneg v
+  have hpos : (0 : ℚ) ≤ (v : ℚ) + 1/2 := by linarith
+  unfold fracToVoxel
+  simp only [hy]
+  rw [if_pos hpos]
+  show ⌊(v : ℚ) + 1/2⌋ = (v : Int)
+  rw [Int.floor_eq_iff]
+  push_cast
+  constructor <;> linarith
 
 /-- the centre of a voxel of the grid lies in the unit cell -/
 theorem voxelToFrac_in_unit (n : Nat) (v : Nat) (hv : v < n) : 0 < voxelToFrac n v ∧ voxelToFrac n v < 1 := by
-  sorry
+  have hnq : (0 : ℚ) < n := by
+    have : 0 < n := by omega
+    exact_mod_cast this
+  have hv0 : (0 : ℚ) ≤ (v : ℚ) := Nat.cast_nonneg v
+  have hvn : (v : ℚ) + 1 ≤ n := by exact_mod_cast hv
+  unfold voxelToFrac
+  push_cast
+  constructor
+  · apply div_pos _ hnq; linarith
+  · rw [div_lt_one hnq]; linarith
 
 /-- non-vacuity: a 2×3×1 grid with three samples, one of them on a voxel boundary -/
 example : counts 2 3 1 [⟨1/8, 1/3, 0⟩, ⟨5/8, 2/3, 1/2⟩, ⟨1/2, 0, 63/64⟩] = [0, 1, 0, 1, 0, 1] := by
